@@ -101,6 +101,39 @@ func fieldAccessorShape(p *ProviderSpec) bool {
 // supplier of the field type (so no two suppliers share a type: the register is a function of the type), and every
 // Struct declaration has a supplier for its struct.
 //
+// noTwoSuppliersShareAType: pairwise over all providers of the declaration (expanded fields included) and all their
+// result positions
+func noTwoSuppliersShareAType(build *BuildDirective) bool {
+	return vs.Forall(len(build.Providers), func(i int) bool {
+		return vs.Forall(len(build.Providers), func(j int) bool {
+			return vs.Implies(build.Providers[i].Type != ProviderTypeStruct && build.Providers[j].Type != ProviderTypeStruct,
+				vs.Forall(len(build.Providers[i].Provides), func(a int) bool {
+					return vs.Forall(len(build.Providers[i].Provides[a]), func(b int) bool {
+						return vs.Forall(len(build.Providers[j].Provides), func(c int) bool {
+							return vs.Forall(len(build.Providers[j].Provides[c]), func(d int) bool {
+								return vs.Implies(build.Providers[i].Provides[a][b].String() == build.Providers[j].Provides[c][d].String(),
+									build.Providers[i] == build.Providers[j])
+							})
+						})
+					})
+				}))
+		})
+	})
+}
+
+// derived once, right after the two passes, where nothing else is in the way; the returns only carry it along
+//
+//kvc:ghost NewGraph@suppliers before "if build.Return.Type == nil"
+func ghostNoTwoSuppliers(build *BuildDirective) {
+	// one statement for declared providers and expanded fields alike: every provider is the registered supplier of
+	// everything it provides ...
+	vs.Assert("hint_every_provider_registered", vs.Forall(len(build.Providers), func(i int) bool {
+		return vs.Implies(build.Providers[i].Type != ProviderTypeStruct, suppliesAll(build.Providers[i]))
+	}))
+	// ... and the register is a function of the type key
+	vs.Assert("hint_no_two_suppliers_share_a_type", noTwoSuppliersShareAType(build))
+}
+
 //kvc:contract NewGraph@suppliers
 func contract_NewGraph_suppliers(metaData *MetaData, build *BuildDirective, varPool *VarPool) (result *Graph, err error) {
 	vs.Requires(metaData != nil && metaData.Imports != nil && poolInv(varPool) && buildInputWF(build))
@@ -118,22 +151,7 @@ func contract_NewGraph_suppliers(metaData *MetaData, build *BuildDirective, varP
 		})))
 	// ... which is the property as stated: no two different suppliers (functions, values, bindings, expanded fields)
 	// of an accepted declaration share a type
-	vs.Ensures("no_two_suppliers_share_a_type", vs.Implies(err == nil,
-		vs.Forall(len(build.Providers), func(i int) bool {
-			return vs.Forall(len(build.Providers), func(j int) bool {
-				return vs.Implies(build.Providers[i].Type != ProviderTypeStruct && build.Providers[j].Type != ProviderTypeStruct,
-					vs.Forall(len(build.Providers[i].Provides), func(a int) bool {
-						return vs.Forall(len(build.Providers[i].Provides[a]), func(b int) bool {
-							return vs.Forall(len(build.Providers[j].Provides), func(c int) bool {
-								return vs.Forall(len(build.Providers[j].Provides[c]), func(d int) bool {
-									return vs.Implies(build.Providers[i].Provides[a][b].String() == build.Providers[j].Provides[c][d].String(),
-										build.Providers[i] == build.Providers[j])
-								})
-							})
-						})
-					}))
-			})
-		})))
+	vs.Ensures("no_two_suppliers_share_a_type", vs.Implies(err == nil, noTwoSuppliersShareAType(build)))
 	vs.ModifiesAll()
 	vs.Allocates()
 	return
